@@ -76,7 +76,7 @@ func runScripted(early, readsStop, fail bool, timeout time.Duration, watchdog ti
 
 func concMain(args []string) {
 	o := hx.ParseOpts(args)
-	rep := hx.NewReport("runner: actions finishing at timeout/4 or 3*timeout, reading the stop signal or not, nil or error, on RunActionWithTimeout and the two context based runners (parent context alive / cancelled); " +
+	rep := hx.NewReport("runner: actions finishing at timeout/4 or 3*timeout, reading the stop signal or not, nil or error, on RunActionWithTimeout and the two context based runners (parent context alive / cancelled before the call / cancelled while the action runs, well before the deadline); " +
 		"race sweep: completion instants within +-2 ms of the deadline in 20 us (quick: 100 us) steps under 1..16 busy goroutines; Parallelise: 0..200 arguments with 0..3 failing; " +
 		"store: 2..16 goroutines mixing Register and Cancel. non-trivial = timeout path, an error, or a concurrent history; distinct = scenario text.")
 	drv, err := hx.StartDriver(o.Driver)
@@ -135,10 +135,25 @@ func concMain(args []string) {
 	// context-based runners
 	for _, variant := range []string{"ctx", "store"} {
 		for _, s := range scens {
-			for _, parentCancelled := range []bool{false, true} {
+			for _, parent := range []string{"alive", "cancelled", "cancelled-mid-flight"} {
+				parentCancelled := parent != "alive"
 				ctx, cancel := context.WithCancel(context.Background())
-				if parentCancelled {
+				if parent == "cancelled" {
 					cancel()
+				}
+				var cancelledAfter int64 // ns after the start at which the mid-flight cancellation really happened
+				started := time.Now()
+				if parent == "cancelled-mid-flight" {
+					if s.early {
+						cancel()
+						continue // the action may be over before the cancellation: not a mid-flight case
+					}
+					// while the action is still running and well before the deadline
+					tm := time.AfterFunc(timeout/8, func() {
+						atomic.StoreInt64(&cancelledAfter, int64(time.Since(started)))
+						cancel()
+					})
+					defer tm.Stop()
 				}
 				var sawDone int32
 				action := func(actx context.Context) error {
@@ -189,7 +204,7 @@ func concMain(args []string) {
 				}
 				cancel()
 				store.Cancel()
-				canon := fmt.Sprintf("%s early=%v readsCtx=%v fail=%v parentCancelled=%v", variant, s.early, s.reads, s.fail, parentCancelled)
+				canon := fmt.Sprintf("%s early=%v readsCtx=%v fail=%v parent=%s", variant, s.early, s.reads, s.fail, parent)
 				rep.Eval(canon, true)
 				rep.Hist("ctxrunner:" + out)
 				want := "timeout"
@@ -200,6 +215,10 @@ func concMain(args []string) {
 					want = "own:err"
 				case s.early:
 					want = "own:nil"
+				}
+				if parent == "cancelled-mid-flight" && time.Duration(atomic.LoadInt64(&cancelledAfter)) > timeout/2 {
+					rep.Hist("ctxrunner:mid-flight-cancellation-came-too-late(not judged)")
+					continue
 				}
 				if out != want {
 					rep.Fail(hx.Failure{Kind: "impl-violates-property", Key: "context-runner:" + variant, Case: canon, Expected: want, Observed: out})
